@@ -3,6 +3,8 @@ import Driver.Beh
 import ESV.Decomp.Sem
 import ESV.Decomp.Optimize
 import ESV.Decomp.SemE
+import ESV.Decomp.Branches
+import ESV.Decomp.BrGuard
 open Lean Drv ESV ESV.Beh ESV.Decomp
 
 namespace Drv.DecompD
@@ -25,7 +27,26 @@ def graphTo (g : Graph) : Json :=
   Json.mkObj [("vs", jList vopTo g.vs),
     ("es", jList (fun (e : Edge) => Json.arr #[jNat e.src, jNat e.dst, jNat e.level, .bool e.loop]) g.es)]
 
-def front (rs : List (List MOp)) : Json :=
+def bgraphTo (g : BGraph) : Json :=
+  Json.mkObj [("vs", jList (fun (v : BVertex) =>
+      ((vopTo v.op).setObjVal! "n" (jOpt jNat v.name)).setObjVal! "ifs" (jOpt jNat v.ifStart) |>.setObjVal! "ife" (jList jNat v.ifEnds)) g.vs),
+    ("es", jList (fun (e : BEdge) => Json.arr #[jNat e.src, jNat e.dst, jNat e.level, .bool e.loop, .bool e.isElse]) g.es)]
+
+def answerTo : Option (Nat × Nat) → Json
+  | none => .null
+  | some (a, b) => .arr #[jNat a, jNat b]
+
+/-- `build_branches` of the model on the graphs that leave `optimize_paths`, with the recorded answers of the search
+(one list per routine graph); the first exception aborts the phase, as in `build_branches()` -/
+def frontBranches (labels : List Lbl) (gs os : List Graph) (answers : List (List (Option (Nat × Nat)))) : List (String × Json) :=
+  let names := gs.map (optNames labels)
+  let bgs := (os.zip names).map fun (o, ns) => BGraph.ofGraph ns o
+  let bb : Json := match (bgs.zipIdx).mapM (fun (b, k) => buildBranches (answers.getD k []) b) with
+    | .ok rs => jList bgraphTo rs
+    | .error e => Json.mkObj [("error", .str e)]
+  [("opt_names", jList (jList (jOpt jNat)) names), ("bb", bb)]
+
+def front (rs : List (List MOp)) (answers : Option (List (List (Option (Nat × Nat))))) : Json :=
   match resolve rs with
   | .error e => Json.mkObj [("error", .str e), ("stage", .str "resolve")]
   | .ok r =>
@@ -34,10 +55,13 @@ def front (rs : List (List MOp)) : Json :=
     match baseGraphs r with
     | .error e => Json.mkObj (base ++ [("error", .str e), ("stage", .str "graph")])
     | .ok gs =>
-      let opt : Json := match gs.mapM (optimizePaths r.labels) with
-        | .ok os => jList graphTo os
-        | .error e => Json.mkObj [("error", .str e)]
-      Json.mkObj (base ++ [("graphs", jList graphTo gs), ("opt", opt)])
+      match gs.mapM (optimizePaths r.labels) with
+      | .ok os =>
+        let bb := match answers with
+          | some ans => frontBranches r.labels gs os ans
+          | none => []
+        Json.mkObj (base ++ [("graphs", jList graphTo gs), ("opt", jList graphTo os)] ++ bb)
+      | .error e => Json.mkObj (base ++ [("graphs", jList graphTo gs), ("opt", Json.mkObj [("error", .str e)])])
 
 /-- per-input validation of the front phases with the proven checker (`validate_sound`): machine on the
 input vs labelled machine on the resolver's output (per routine), and the routine in isolation vs its base graph -/
@@ -120,6 +144,50 @@ def validateOpt (labels : List Lbl) (rtns : List (List Item)) (graphs opts : Lis
       "graph_ok" (.bool (graphOk g))).setObjVal! "no_silent_cycle" (.bool (noSilentCycle g))
   Json.mkObj [("opt", .arr res.toArray)]
 
+def answerOf (j : Json) : R (Option (Nat × Nat)) := do
+  match j with
+  | .null => pure none
+  | _ =>
+    match (← asArr j) with
+    | [a, b] => pure (some (← asNat a, ← asNat b))
+    | _ => throw "bad answer"
+
+def answersOf (j : Json) : R (List (List (Option (Nat × Nat)))) := do
+  (← asArr j).mapM fun g => do (← asArr g).mapM answerOf
+
+def bgraphOf (j : Json) : R BGraph := do
+  let vs ← (← asArr (← fld j "vs")).mapM fun v => do
+    pure (⟨← asOpt asNat (← fld v "n"), ← vopOf v, ← asOpt asNat (← fld v "ifs"), ← (← asArr (← fld v "ife")).mapM asNat⟩ : BVertex)
+  let es ← (← asArr (← fld j "es")).mapM fun e => do
+    match (← asArr e) with
+    | [s, d, l, lp, el] => pure (⟨← asNat s, ← asNat d, ← asNat l, ← asBool lp, ← asBool el⟩ : BEdge)
+    | _ => throw "bad edge"
+  pure ⟨vs, es⟩
+
+/-- validation of the REAL graphs after `build_branches` (markers, names and else flags forgotten) against the REAL
+graphs after `optimize_paths` (edge-based reading), from the routine's first vertex - found again after the deletion
+by its "name" attribute -, with the proven checker; plus the hypotheses of `buildBranches_preserves` evaluated on
+the real graph and the recorded real answers -/
+def validateBranches (opts : List Graph) (names : List (List (Option Nat))) (answers : List (List (Option (Nat × Nat))))
+    (bbs : List BGraph) : Json :=
+  let res := ((opts.zip bbs).zipIdx).map fun ((o, b), k) =>
+    let ns := names.getD k []
+    let ans := answers.getD k []
+    let b' := b.toGraph
+    let fuel := o.vs.length + b'.vs.length + 8
+    let budget := (o.vs.length + 4) * (b'.vs.length + 4) + 64
+    let n0 := (ns[0]?).join
+    let start := b.vs.findIdx? fun v => n0.isSome && v.name == n0
+    let bg := BGraph.ofGraph ns o
+    let base := match start with
+      | some st => BehD.verdictJson o.stepE b'.stepE fuel budget 0 st
+      | none => if o.vs.isEmpty && b.vs.isEmpty then Json.mkObj [("verdict", .str "equiv")]
+                else Json.mkObj [("verdict", .str "start-deleted")]
+    ((((base.setObjVal! "r" (jNat k)).setObjVal! "no_silent_cycle" (.bool (noSilentCycle o))).setObjVal!
+      "struct_ok" (.bool (branchesStructOk bg))).setObjVal! "answers_ok" (.bool (answersOk ans bg))).setObjVal!
+      "changed" (.bool (decide (b'.vs ≠ o.vs) || decide (b'.es ≠ o.es)))
+  Json.mkObj [("bb", .arr res.toArray)]
+
 def handle (op : String) (j : Json) : R Json := do
   match op with
   | "decomp.validate_opt" =>
@@ -128,6 +196,21 @@ def handle (op : String) (j : Json) : R Json := do
     let graphs ← (← asArr (← fld j "graphs")).mapM graphOf
     let opts ← (← asArr (← fld j "opt")).mapM graphOf
     pure (validateOpt labels rtns graphs opts)
+  | "decomp.validate_branches" =>
+    let opts ← (← asArr (← fld j "opt")).mapM graphOf
+    let names ← (← asArr (← fld j "opt_names")).mapM fun g => do (← asArr g).mapM (asOpt asNat)
+    let answers ← answersOf (← fld j "answers")
+    let bbs ← (← asArr (← fld j "bb")).mapM bgraphOf
+    pure (validateBranches opts names answers bbs)
+  | "decomp.branches" =>
+    let g ← bgraphOf (← fld j "g")
+    let answers ← (← asArr (← fld j "answers")).mapM answerOf
+    pure (match buildBranches answers g with
+      | .ok g' => ((bgraphTo g').setObjVal! "struct_ok" (.bool (branchesStructOk g))).setObjVal! "answers_ok" (.bool (answersOk answers g))
+        |>.setObjVal! "verdict" ((BehD.verdictJson g.toGraph.stepE g'.toGraph.stepE (g.vs.length + g'.vs.length + 8)
+            ((g.vs.length + 4) * (g'.vs.length + 4) + 64) 0 0).getObjValD "verdict")
+        |>.setObjVal! "no_silent_cycle" (.bool (noSilentCycle g.toGraph))
+      | .error e => Json.mkObj [("error", .str e)])
   | "decomp.validate" =>
     let rs ← (← asArr (← fld j "rs")).mapM fun r => do (← asArr r).mapM BehD.mopOf
     let labels ← (← asArr (← fld j "labels")).mapM lblOf
@@ -139,7 +222,10 @@ def handle (op : String) (j : Json) : R Json := do
     pure (checkFront rs)
   | "decomp.front" =>
     let rs ← (← asArr (← fld j "rs")).mapM fun r => do (← asArr r).mapM BehD.mopOf
-    pure (front rs)
+    let answers ← match j.getObjVal? "answers" with
+      | .ok a => some <$> answersOf a
+      | .error _ => pure none
+    pure (front rs answers)
   | _ => throw s!"unknown op {op}"
 
 end Drv.DecompD
